@@ -1,6 +1,7 @@
 package gvc
 
 import (
+	"fmt"
 	"go/ast"
 	"go/constant"
 	"go/token"
@@ -88,7 +89,25 @@ func (x *Exec) eval(e ast.Expr, st *St, fr *Frame, k kval) {
 	case *ast.CompositeLit:
 		x.evalComposite(n, st, fr, false, k)
 	case *ast.FuncLit:
-		k(st, &Val{Fn: &FnVal{Lit: n, Owner: fr}, Ty: fr.typeOf(n)})
+		v := &Val{Fn: &FnVal{Lit: n, Owner: fr}, Ty: fr.typeOf(n)}
+		if ord, ok := fr.fi.Lits[n]; ok && !x.pure {
+			if cc := x.W.CS.ByKey[fmt.Sprintf("%s#%d", fr.fi.Key, ord)]; cc != nil && cc.Kind == "closure" {
+				// the closure has its own contract: its precondition must hold where it is created
+				env := &CEnv{X: x, Names: x.localNames(st, fr, nil), St: st, Pkg: fr.fi.Pkg}
+				x.wrapCfail("precondition of closure "+cc.Key, func() {
+					for _, r := range cc.Requires {
+						x.emit(st, oblTemplate{kind: "closure-pre", label: r.Label, clause: r.Text, props: r.Props, pos: x.W.pos(n.Pos()),
+							name: x.Fn.Key + "/closure#" + fmt.Sprint(ord) + "/pre#" + r.Label}, nil, env.Formula(r.Expr))
+					}
+				})
+				if cc.Yields != "" {
+					v.Proto = x.W.protoOf(cc.Yields)
+					v.T = x.fresh("closure", SRef)
+					x.assume(st, Neq(v.T, Null))
+				}
+			}
+		}
+		k(st, v)
 	case *ast.TypeAssertExpr:
 		x.eval(n.X, st, fr, func(st *St, v *Val) {
 			to := fr.typeOf(n.Type)
